@@ -1,4 +1,5 @@
 import Martian.Equiv
+import Martian.EquivLockLTS
 import Gen.Facts
 import Driver.Util
 
@@ -129,6 +130,24 @@ def lockTrace (rf : Bool) : LockState → List LockOp → List String → Option
       lockTrace rf s' r ((if ok then "1" else "0") :: acc)
     else none
 
+def ltsAct (s : String) : Option Martian.LockLTS.Act :=
+  match s.toList with
+  | ['R'] => some .rmLock
+  | 'C' :: r => (String.ofList r).toNat?.map .check
+  | 'W' :: r => (String.ofList r).toNat?.map .write
+  | 'U' :: r => (String.ofList r).toNat?.map .unlock
+  | 'S' :: r => (String.ofList r).toNat?.map .signal
+  | 'K' :: r => (String.ofList r).toNat?.map .kill
+  | _ => none
+
+def ltsTrace (rf : Bool) : Martian.LockLTS.St → List Martian.LockLTS.Act → List String → Option (List String)
+  | s, [], acc => some (acc.reverse ++ [boolStr s.lockFile, toString s.holders.length, toString s.checked.length])
+  | s, a :: r, acc =>
+    if Martian.LockLTS.enabled s a then
+      let (s', ok) := Martian.LockLTS.step rf s a
+      ltsTrace rf s' r ((if ok then "1" else "0") :: acc)
+    else none
+
 def handle (op : String) (args : List String) : Option String :=
   match op, args with
   | "equiv", [a, b] => do
@@ -145,6 +164,11 @@ def handle (op : String) (args : List String) : Option String :=
     match lockTrace Gen.c15RegisterFirst lockInit ops [] with
     | some r => pure (" ".intercalate r)
     | none => pure "undisciplined"
+  | "lts", [ops] => do
+    let ops ← if ops == "." then some [] else (ops.splitOn ",").mapM ltsAct
+    match ltsTrace Gen.c15RegisterFirst Martian.LockLTS.init ops [] with
+    | some r => pure (" ".intercalate r)
+    | none => pure "not-enabled"
   | "selfcompare", [] => pure (boolStr Gen.c15SelfCompare)
   | "registerfirst", [] => pure (boolStr Gen.c15RegisterFirst)
   | _, _ => none
